@@ -22,19 +22,15 @@ Proof.
   destruct (g_comments g); [discriminate | reflexivity].
 Qed.
 
-Lemma node_free4 nid nd :
-  get_node g nid = Some nd ->
-  n_ws nd = None /\ n_skipws nd = None /\ n_eolterm nd = false /\ is_unord (n_kind nd) = false.
+Lemma node_free nid nd :
+  get_node g nid = Some nd -> n_ws nd = None /\ n_skipws nd = None /\ n_eolterm nd = false.
 Proof.
   intro Hn. unfold ctx_constant in H. apply andb_true_iff in H as [H1 _].
   rewrite forallb_forall in H1. unfold get_node in Hn. apply nth_error_In in Hn.
   specialize (H1 _ Hn). unfold node_ctx_free in H1.
   destruct (n_ws nd); [discriminate|]. destruct (n_skipws nd); [discriminate|].
-  destruct (n_eolterm nd); [discriminate|]. destruct (is_unord (n_kind nd)); [discriminate|]. auto.
+  destruct (n_eolterm nd); [discriminate|]. auto.
 Qed.
-Lemma node_free nid nd :
-  get_node g nid = Some nd -> n_ws nd = None /\ n_skipws nd = None /\ n_eolterm nd = false.
-Proof. intro Hn. destruct (node_free4 _ _ Hn) as (A & B & C & _). auto. Qed.
 
 Definition is_abort (o : out) : bool := match o with Abort _ => true | _ => false end.
 Definition ostate (d : st) (o : out) : st := match o with Ok _ s | Fail s => s | Abort _ => d end.
@@ -600,7 +596,151 @@ Proof.
 Qed.
 
 
-Lemma body0_rerun k k' nd : is_unord (n_kind nd) = false ->
+
+Definition ugr_abort (o : ugr) : bool := match o with UGAbort _ => true | _ => false end.
+Definition ugr_state (d : st) (o : ugr) : st := match o with UGHit _ _ s | UGNone _ s => s | UGAbort _ => d end.
+Definition ugr_map (f : st -> st) (o : ugr) : ugr :=
+  match o with UGHit e r s => UGHit e r (f s) | UGNone mt s => UGNone mt (f s) | UGAbort w => UGAbort w end.
+Definition ugr_rerun_ok (o : ugr) (s' : st) (o' : ugr) : Prop :=
+  ugr_abort o' = true \/ o' = ugr_map (fun s1 => set_pos (pos s1) s') o.
+Lemma ugr_rerun_ok_pos p o s' o' : ugr_rerun_ok o (set_pos p s') o' -> ugr_rerun_ok o s' o'.
+Proof.
+  intros [A|E]; [left; exact A | right]. rewrite E. destruct o; cbn; now rewrite ?set_pos_set_pos.
+Qed.
+Lemma ugr_good_na s o d : ugr_good s o -> ugr_abort o = false ->
+  dom s (ugr_state d o) /\ cpos_id (cpos (ugr_state d o)).
+Proof. destruct o; cbn; auto; discriminate. Qed.
+Lemma ugr_na_state d d' o : ugr_abort o = false -> ugr_state d o = ugr_state d' o.
+Proof. destruct o; cbn; congruence. Qed.
+
+Ltac abu A := match type of A with is_abort ?x = true => destruct x; try discriminate A; now left end.
+
+Lemma ug_try_rerun sf cl todo : forall mt s s',
+  cpos_id (cpos s) -> cpos_id (cpos s') ->
+  ugr_abort (ug_try rec sf cl todo mt s) = false ->
+  dom (ugr_state s (ug_try rec sf cl todo mt s)) s' -> pos s' = pos s ->
+  ugr_rerun_ok (ug_try rec sf cl todo mt s) s' (ug_try rec' sf cl todo mt s').
+Proof.
+  induction todo as [|e todo IH]; intros mt s s' C C' NA D P; cbn [ug_try] in *.
+  - right. cbn. now rewrite <- P, set_pos_same.
+  - pose proof (Hg e false s C) as G.
+    destruct (rec e false s) as [r s1|s1|w] eqn:E; try discriminate NA; destruct G as [D1 C1].
+    + destruct (truthy r) eqn:T; [destruct sf|].
+      * pose proof (ug_try_good rec Hg true cl todo false (set_pos cl s1) C1) as G2.
+        destruct (ugr_good_na _ _ s1 G2 NA) as [D2 _]. apply dom_set_pos_l_inv in D2.
+        rewrite (ugr_na_state s s1) in D by exact NA.
+        destruct (call_ok e false s s' r s1 E C C' P) as [A|Eq]; [eapply dom_trans; eassumption | abu A |].
+        rewrite Eq, T, set_pos_set_pos. apply ugr_rerun_ok_pos with (p := cl).
+        apply IH; auto using dom_set_pos_r.
+        rewrite (ugr_na_state _ s1) by exact NA. now apply dom_set_pos_r.
+      * cbn in D. destruct (call_ok e false s s' r s1 E C C' P D) as [A|Eq]; [abu A|].
+        rewrite Eq, T. now right.
+      * pose proof (ug_try_good rec Hg sf cl todo mt s1 C1) as G2.
+        destruct (ugr_good_na _ _ s1 G2 NA) as [D2 _].
+        rewrite (ugr_na_state s s1) in D by exact NA.
+        destruct (call_ok e false s s' r s1 E C C' P) as [A|Eq]; [eapply dom_trans; eassumption | abu A |].
+        rewrite Eq, T. apply ugr_rerun_ok_pos with (p := pos s1). apply IH; auto using dom_set_pos_r.
+    + pose proof (ug_try_good rec Hg sf cl todo false (set_pos cl s1) C1) as G2.
+      destruct (ugr_good_na _ _ s1 G2 NA) as [D2 _]. apply dom_set_pos_l_inv in D2.
+      rewrite (ugr_na_state s s1) in D by exact NA.
+      destruct (call_fail e false s s' s1 E C C' P) as [A|Eq]; [eapply dom_trans; eassumption | abu A |].
+      rewrite Eq, set_pos_set_pos. apply ugr_rerun_ok_pos with (p := cl).
+      apply IH; auto using dom_set_pos_r.
+      rewrite (ugr_na_state _ s1) by exact NA. now apply dom_set_pos_r.
+Qed.
+
+Definition ugo_abort (o : ugo) : bool := match o with UGOAbort _ => true | _ => false end.
+Definition ugo_state (d : st) (o : ugo) : st := match o with UGDone _ _ s => s | UGOAbort _ => d end.
+Definition ugo_map (f : st -> st) (o : ugo) : ugo :=
+  match o with UGDone mt acc s => UGDone mt acc (f s) | UGOAbort w => UGOAbort w end.
+Definition ugo_rerun_ok (o : ugo) (s' : st) (o' : ugo) : Prop :=
+  ugo_abort o' = true \/ o' = ugo_map (fun s1 => set_pos (pos s1) s') o.
+Lemma ugo_rerun_ok_pos p o s' o' : ugo_rerun_ok o (set_pos p s') o' -> ugo_rerun_ok o s' o'.
+Proof.
+  intros [A|E]; [left; exact A | right]. rewrite E. destruct o; cbn; now rewrite ?set_pos_set_pos.
+Qed.
+Lemma ugo_good_na s o d : ugo_good s o -> ugo_abort o = false ->
+  dom s (ugo_state d o) /\ cpos_id (cpos (ugo_state d o)).
+Proof. destruct o; cbn; auto; discriminate. Qed.
+Lemma ugo_good_trans s s1 o : dom s s1 -> ugo_good s1 o -> ugo_good s o.
+Proof. intros D. destruct o; cbn; auto; intros [D2 C2]; split; eauto using dom_trans. Qed.
+Lemma ugo_na_state d d' o : ugo_abort o = false -> ugo_state d o = ugo_state d' o.
+Proof. destruct o; cbn; congruence. Qed.
+
+Lemma ug_loop_rerun sep n : forall todo first sr acc s s',
+  cpos_id (cpos s) -> cpos_id (cpos s') ->
+  ugo_abort (ug_loop rec sep n todo first sr acc s) = false ->
+  dom (ugo_state s (ug_loop rec sep n todo first sr acc s)) s' -> pos s' = pos s ->
+  ugo_rerun_ok (ug_loop rec sep n todo first sr acc s) s' (ug_loop rec' sep n todo first sr acc s').
+Proof.
+  induction n as [|n IH]; intros todo first sr acc s s' C C' NA D P; destruct todo as [|t0 todo];
+    cbn [ug_loop] in *; try discriminate NA; try (right; cbn; now rewrite <- P, set_pos_same).
+  set (cont := fun (rc : parser) (cs : nat) (sf : bool) (sr1 : res) (s1 : st) =>
+        match ug_try rc sf (pos s1) (t0 :: todo) true s1 with
+        | UGHit e r s2 => ug_loop rc sep n (remove_first e (t0 :: todo)) false sr1
+                            ((if truthy sr1 then acc ++ [sr1] else acc) ++ [r]) s2
+        | UGNone mt s2 => UGDone mt acc (set_pos cs s2)
+        | UGAbort w => UGOAbort w
+        end).
+  assert (Gcont : forall cs sf sr1 s1, cpos_id (cpos s1) -> ugo_good s1 (cont rec cs sf sr1 s1)).
+  { intros cs sf sr1 s1 C1. unfold cont.
+    pose proof (ug_try_good rec Hg sf (pos s1) (t0 :: todo) true s1 C1) as G.
+    destruct (ug_try rec sf (pos s1) (t0 :: todo) true s1) as [e r s2|mt s2|w]; cbn in G |- *; auto;
+      destruct G as [D2 C2].
+    - eapply ugo_good_trans; [exact D2 | now apply ug_loop_good].
+    - split; auto using dom_set_pos_r. }
+  assert (Hcont : forall cs sf sr1 s1 s1', cpos_id (cpos s1) -> cpos_id (cpos s1') -> pos s1' = pos s1 ->
+            ugo_abort (cont rec cs sf sr1 s1) = false -> dom (ugo_state s1 (cont rec cs sf sr1 s1)) s1' ->
+            ugo_rerun_ok (cont rec cs sf sr1 s1) s1' (cont rec' cs sf sr1 s1')).
+  { intros cs sf sr1 s1 s1' C1 C1' P1 NA1 D1. unfold cont in *. rewrite P1.
+    pose proof (ug_try_rerun sf (pos s1) (t0 :: todo) true s1 s1' C1 C1') as R.
+    pose proof (ug_try_good rec Hg sf (pos s1) (t0 :: todo) true s1 C1) as G.
+    destruct (ug_try rec sf (pos s1) (t0 :: todo) true s1) as [e r s2|mt s2|w] eqn:E; try discriminate NA1;
+      destruct G as [D2 C2].
+    - pose proof (ug_loop_good rec Hg sep n (remove_first e (t0 :: todo)) false sr1
+                    ((if truthy sr1 then acc ++ [sr1] else acc) ++ [r]) s2 C2) as G3.
+      destruct (ugo_good_na _ _ s2 G3 NA1) as [D3 _].
+      rewrite (ugo_na_state s1 s2) in D1 by exact NA1.
+      destruct (R eq_refl (dom_trans _ _ _ D3 D1) P1) as [A|Eq].
+      { destruct (ug_try rec' sf (pos s1) (t0 :: todo) true s1'); try discriminate A. now left. }
+      rewrite Eq. cbn [ugr_map]. apply ugo_rerun_ok_pos with (p := pos s2).
+      apply IH; auto using dom_set_pos_r.
+    - cbn in D1. apply dom_set_pos_l_inv in D1.
+      destruct (R eq_refl D1 P1) as [A|Eq].
+      { destruct (ug_try rec' sf (pos s1) (t0 :: todo) true s1'); try discriminate A. now left. }
+      rewrite Eq. cbn [ugr_map]. right. cbn. now rewrite set_pos_set_pos. }
+  assert (Hplain : ugo_abort (cont rec (pos s) false sr s) = false ->
+                   dom (ugo_state s (cont rec (pos s) false sr s)) s' ->
+                   ugo_rerun_ok (cont rec (pos s) false sr s) s' (cont rec' (pos s') false sr s')).
+  { intros NA0 D0. rewrite P. now apply Hcont. }
+  destruct sep as [sp|]; [|exact (Hplain NA D)].
+  destruct first; [exact (Hplain NA D)|].
+  pose proof (Hg sp false s C) as G.
+  destruct (rec sp false s) as [sr1 s1|s1|w] eqn:E; try discriminate NA; destruct G as [D1 C1].
+  - change (ugo_abort (cont rec (pos s) false sr1 s1) = false) in NA.
+    change (dom (ugo_state s (cont rec (pos s) false sr1 s1)) s') in D.
+    destruct (ugo_good_na _ _ s1 (Gcont (pos s) false sr1 s1 C1) NA) as [D2 _].
+    rewrite (ugo_na_state s s1) in D by exact NA.
+    destruct (call_ok sp false s s' sr1 s1 E C C' P) as [A|Eq]; [eapply dom_trans; eassumption | |].
+    { destruct (rec' sp false s'); try discriminate A. now left. }
+    rewrite Eq. change (ugo_rerun_ok (cont rec (pos s) false sr1 s1) s' (cont rec' (pos s') false sr1 (set_pos (pos s1) s'))).
+    rewrite P. apply ugo_rerun_ok_pos with (p := pos s1). apply Hcont; auto using dom_set_pos_r.
+  - change (ugo_abort (cont rec (pos s) true sr (set_pos (pos s) s1)) = false) in NA.
+    change (dom (ugo_state s (cont rec (pos s) true sr (set_pos (pos s) s1))) s') in D.
+    destruct (ugo_good_na _ _ s1 (Gcont (pos s) true sr (set_pos (pos s) s1) C1) NA) as [D2 _].
+    apply dom_set_pos_l_inv in D2.
+    rewrite (ugo_na_state s s1) in D by exact NA.
+    destruct (call_fail sp false s s' s1 E C C' P) as [A|Eq]; [eapply dom_trans; eassumption | |].
+    { destruct (rec' sp false s'); try discriminate A. now left. }
+    rewrite Eq.
+    change (ugo_rerun_ok (cont rec (pos s) true sr (set_pos (pos s) s1)) s'
+              (cont rec' (pos s') true sr (set_pos (pos s') (set_pos (pos s1) s')))).
+    rewrite P, set_pos_set_pos. apply ugo_rerun_ok_pos with (p := pos s).
+    apply Hcont; auto using dom_set_pos_r.
+    rewrite (ugo_na_state _ s1) by exact NA. now apply dom_set_pos_r.
+Qed.
+
+Lemma body0_rerun k k' nd :
   (forall kk kk' first acc s s' e sep plus, cpos_id (cpos s) -> cpos_id (cpos s') ->
      is_abort (rep_loop rec e sep plus kk first acc s) = false ->
      dom (ostate s (rep_loop rec e sep plus kk first acc s)) s' -> pos s' = pos s ->
@@ -610,8 +750,8 @@ Lemma body0_rerun k k' nd : is_unord (n_kind nd) = false ->
   dom (ostate s (body0 rec k nd s)) s' -> pos s' = pos s ->
   rerun_ok (body0 rec k nd s) s' (body0 rec' k' nd s').
 Proof.
-  intros NU Hrep s s' C C' NA D P. unfold body0 in *. rewrite P.
-  destruct (n_kind nd); try discriminate NA; try discriminate NU.
+  intros Hrep s s' C C' NA D P. unfold body0 in *. rewrite P.
+  destruct (n_kind nd); try discriminate NA.
   - (* Sequence *)
     pose proof (seq_loop_rerun true (n_kids nd) [] s s' C C') as R.
     destruct (seq_loop rec true (n_kids nd) [] s) as [r s1|s1|w] eqn:E; try discriminate NA.
@@ -642,6 +782,22 @@ Proof.
       now rewrite set_pos_set_pos.
   - destruct (n_kids nd) as [|e l]; [discriminate NA|]. now apply Hrep.
   - destruct (n_kids nd) as [|e l]; [discriminate NA|]. now apply Hrep.
+  - (* UnorderedGroup *)
+    destruct (n_kids nd) as [|e l] eqn:K; [discriminate NA|]. rewrite <- K in *.
+    pose proof (ug_loop_rerun (n_sep nd) (S (length (n_kids nd))) (n_kids nd) true RNone [] s s' C C') as R.
+    destruct (ug_loop rec (n_sep nd) (S (length (n_kids nd))) (n_kids nd) true RNone [] s) as [mt acc s1|w] eqn:E;
+      try discriminate NA.
+    destruct mt.
+    + cbn in D. destruct (R eq_refl D P) as [A|Eq].
+      { destruct (ug_loop rec' _ _ _ _ _ _ s'); try discriminate A. now left. }
+      rewrite Eq. now right.
+    + cbn in D. assert (D1 : dom s1 s').
+      { eapply dom_trans; [|exact D]. eapply dom_trans; [|apply dom_reg_fail]. apply dom_set_pos_r, dom_refl. }
+      destruct (R eq_refl D1 P) as [A|Eq].
+      { destruct (ug_loop rec' _ _ _ _ _ _ s'); try discriminate A. now left. }
+      rewrite Eq. cbn. right. unfold nm_raise. cbn. rewrite set_pos_set_pos.
+      assert (D2 : dom (reg_fail (pos s) (set_pos (pos s) s1)) (set_pos (pos s) s')) by now apply dom_set_pos_r.
+      rewrite (reg_fail_saturated _ _ _ D2). now rewrite pos_reg_fail.
   - (* And *)
     pose proof (seq_loop_rerun false (n_kids nd) [] s s' C C') as R.
     destruct (seq_loop rec false (n_kids nd) [] s) as [r s1|s1|w] eqn:E; try discriminate NA;
@@ -682,9 +838,9 @@ Proof.
     + assert (Dm : dom (mpre s) s') by (eapply dom_trans; eassumption).
       rewrite (mpre_rerun s s' C C' Dm P).
       rewrite (R eq_refl (dom_set_pos_r _ _ _ D) eq_refl). cbn. right. cbn. now rewrite set_pos_set_pos.
-  - cbn in *. destruct (node_free4 _ _ Hn) as (_ & _ & _ & NU).
+  - cbn in *.
     rewrite !(body_eq _ _ _ _ _ Hn) in *. rewrite P.
-    pose proof (body0_rerun (parse g input orc false f) (parse g input orc false f') (parse_good f) (IH f') f f' nd NU) as R.
+    pose proof (body0_rerun (parse g input orc false f) (parse g input orc false f') (parse_good f) (IH f') f f' nd) as R.
     assert (Hrep : forall kk kk' first acc s s' e sep plus, cpos_id (cpos s) -> cpos_id (cpos s') ->
        is_abort (rep_loop (parse g input orc false f) e sep plus kk first acc s) = false ->
        dom (ostate s (rep_loop (parse g input orc false f) e sep plus kk first acc s)) s' -> pos s' = pos s ->
@@ -826,12 +982,76 @@ Proof.
   eapply INV_mono; [apply dom_reg_fail | exact I].
 Qed.
 
-Lemma body0_sim k nd : is_unord (n_kind nd) = false -> forall (cch : cache_t) s,
+Definition ugr_sim_goal (oN oM : ugr) (s : st) : Prop :=
+  exists cch' : cache_t, oM = ugr_map (set_cache cch') oN /\ INV cch' (ugr_state s oN).
+Definition ugo_sim_goal (oN oM : ugo) (s : st) : Prop :=
+  exists cch' : cache_t, oM = ugo_map (set_cache cch') oN /\ INV cch' (ugo_state s oN).
+
+Lemma ug_try_sim sf cl todo : forall mt (cch : cache_t) s,
+  cpos_id (cpos s) -> INV cch s -> ugr_abort (ug_try recN sf cl todo mt s) = false ->
+  ugr_sim_goal (ug_try recN sf cl todo mt s) (ug_try recM sf cl todo mt (set_cache cch s)) s.
+Proof.
+  induction todo as [|e todo IH]; intros mt cch s C I NA; cbn [ug_try] in *.
+  - exists cch. auto.
+  - destruct (recN e false s) as [r s1|s1|w] eqn:E; try discriminate NA.
+    + destruct (sim_ok e false cch s r s1 E C I) as (cch1 & Eq & I1 & C1 & D1). rewrite Eq.
+      destruct (truthy r); [destruct sf|].
+      * assert (I1' : INV cch1 (set_pos cl s1)) by (eapply INV_mono; [apply dom_set_pos_r, dom_refl | exact I1]).
+        destruct (IH false cch1 (set_pos cl s1) C1 I1' NA) as (cch2 & Eq2 & I2).
+        exists cch2. split; [exact Eq2|]. now rewrite (ugr_na_state s (set_pos cl s1)).
+      * exists cch1. auto.
+      * destruct (IH mt cch1 s1 C1 I1 NA) as (cch2 & Eq2 & I2).
+        exists cch2. split; [exact Eq2|]. now rewrite (ugr_na_state s s1).
+    + destruct (sim_fail e false cch s s1 E C I) as (cch1 & Eq & I1 & C1 & D1). rewrite Eq.
+      assert (I1' : INV cch1 (set_pos cl s1)) by (eapply INV_mono; [apply dom_set_pos_r, dom_refl | exact I1]).
+      destruct (IH false cch1 (set_pos cl s1) C1 I1' NA) as (cch2 & Eq2 & I2).
+      exists cch2. split; [exact Eq2|]. now rewrite (ugr_na_state s (set_pos cl s1)).
+Qed.
+
+Lemma ug_loop_sim sep n : forall todo first sr acc (cch : cache_t) s,
+  cpos_id (cpos s) -> INV cch s -> ugo_abort (ug_loop recN sep n todo first sr acc s) = false ->
+  ugo_sim_goal (ug_loop recN sep n todo first sr acc s) (ug_loop recM sep n todo first sr acc (set_cache cch s)) s.
+Proof.
+  induction n as [|n IH]; intros todo first sr acc cch s C I NA; destruct todo as [|t0 todo];
+    cbn [ug_loop] in *; try discriminate NA; try (exists cch; now auto).
+  cbn [pos set_cache].
+  set (cont := fun (rc : parser) (sf : bool) (sr1 : res) (s1 : st) =>
+        match ug_try rc sf (pos s1) (t0 :: todo) true s1 with
+        | UGHit e r s2 => ug_loop rc sep n (remove_first e (t0 :: todo)) false sr1
+                            ((if truthy sr1 then acc ++ [sr1] else acc) ++ [r]) s2
+        | UGNone mt s2 => UGDone mt acc (set_pos (pos s) s2)
+        | UGAbort w => UGOAbort w
+        end).
+  assert (Hcont : forall sf sr1 (cch1 : cache_t) s1, cpos_id (cpos s1) -> INV cch1 s1 ->
+            ugo_abort (cont recN sf sr1 s1) = false ->
+            ugo_sim_goal (cont recN sf sr1 s1) (cont recM sf sr1 (set_cache cch1 s1)) s1).
+  { intros sf sr1 cch1 s1 C1 I1 NA1. unfold cont in *. cbn [pos set_cache].
+    pose proof (ug_try_sim sf (pos s1) (t0 :: todo) true cch1 s1 C1 I1) as R.
+    pose proof (ug_try_good recN Hg sf (pos s1) (t0 :: todo) true s1 C1) as G.
+    destruct (ug_try recN sf (pos s1) (t0 :: todo) true s1) as [e r s2|mt s2|w] eqn:E; try discriminate NA1;
+      destruct G as [D2 C2]; destruct (R eq_refl) as (cch2 & Eq & I2); rewrite Eq; cbn [ugr_map].
+    - destruct (IH (remove_first e (t0 :: todo)) false sr1 ((if truthy sr1 then acc ++ [sr1] else acc) ++ [r])
+                   cch2 s2 C2 I2 NA1) as (cch3 & Eq3 & I3).
+      exists cch3. split; [exact Eq3|]. now rewrite (ugo_na_state s1 s2).
+    - exists cch2. split; [reflexivity|]. cbn. eapply INV_mono; [apply dom_set_pos_r, dom_refl | exact I2]. }
+  destruct sep as [sp|]; [|exact (Hcont false sr cch s C I NA)].
+  destruct first; [exact (Hcont false sr cch s C I NA)|].
+  destruct (recN sp false s) as [sr1 s1|s1|w] eqn:E; try discriminate NA.
+  - destruct (sim_ok sp false cch s sr1 s1 E C I) as (cch1 & Eq & I1 & C1 & D1). rewrite Eq.
+    destruct (Hcont false sr1 cch1 s1 C1 I1 NA) as (cch2 & Eq2 & I2).
+    exists cch2. split; [exact Eq2|]. now rewrite (ugo_na_state s s1).
+  - destruct (sim_fail sp false cch s s1 E C I) as (cch1 & Eq & I1 & C1 & D1). rewrite Eq.
+    assert (I1' : INV cch1 (set_pos (pos s) s1)) by (eapply INV_mono; [apply dom_set_pos_r, dom_refl | exact I1]).
+    destruct (Hcont true sr cch1 (set_pos (pos s) s1) C1 I1' NA) as (cch2 & Eq2 & I2).
+    exists cch2. split; [exact Eq2|]. now rewrite (ugo_na_state s (set_pos (pos s) s1)).
+Qed.
+
+Lemma body0_sim k nd : forall (cch : cache_t) s,
   cpos_id (cpos s) -> INV cch s -> is_abort (body0 recN k nd s) = false ->
   sim_goal (body0 recN k nd s) (body0 recM k nd (set_cache cch s)) s.
 Proof.
-  intros NU cch s C I NA. unfold body0 in *. cbn [pos set_cache].
-  destruct (n_kind nd); try discriminate NA; try discriminate NU.
+  intros cch s C I NA. unfold body0 in *. cbn [pos set_cache].
+  destruct (n_kind nd); try discriminate NA.
   - pose proof (seq_loop_sim true (n_kids nd) [] cch s C I) as R.
     destruct (seq_loop recN true (n_kids nd) [] s) as [r s1|s1|w] eqn:E; try discriminate NA;
       destruct (R eq_refl) as (cch1 & Eq & I1); rewrite Eq; cbn; exists cch1.
@@ -852,6 +1072,16 @@ Proof.
       split; [reflexivity|]. cbn. eapply INV_mono; [apply dom_set_pos_r, dom_refl | exact I1].
   - destruct (n_kids nd) as [|e l]; [discriminate NA|]. now apply rep_loop_sim.
   - destruct (n_kids nd) as [|e l]; [discriminate NA|]. now apply rep_loop_sim.
+  - destruct (n_kids nd) as [|e l] eqn:K; [discriminate NA|]. rewrite <- K in *.
+    pose proof (ug_loop_sim (n_sep nd) (S (length (n_kids nd))) (n_kids nd) true RNone [] cch s C I) as R.
+    destruct (ug_loop recN (n_sep nd) (S (length (n_kids nd))) (n_kids nd) true RNone [] s) as [mt acc s1|w] eqn:E;
+      try discriminate NA.
+    destruct (R eq_refl) as (cch1 & Eq & I1). rewrite Eq. cbn [ugo_map]. cbn in I1.
+    destruct mt.
+    + exists cch1. auto.
+    + assert (I1' : INV cch1 (set_pos (pos s) s1)) by (eapply INV_mono; [apply dom_set_pos_r, dom_refl | exact I1]).
+      destruct (raise_sim (pos s) cch1 (set_pos (pos s) s1) I1') as (cch2 & Eq2 & I2).
+      exists cch2. split; [exact Eq2|]. cbn in I2 |- *. exact I2.
   - pose proof (seq_loop_sim false (n_kids nd) [] cch s C I) as R.
     destruct (seq_loop recN false (n_kids nd) [] s) as [r s1|s1|w] eqn:E; try discriminate NA;
       destruct (R eq_refl) as (cch1 & Eq & I1); rewrite Eq; cbn; exists cch1;
@@ -928,9 +1158,8 @@ Proof.
       * rewrite Eq. exists cch. destruct cr; (split; [reflexivity|]); cbn;
           (eapply INV_mono; [apply dom_set_pos_r, dom_refl | exact I]).
     + (* cache miss *)
-      destruct (node_free4 _ _ Hn) as (_ & _ & _ & NU).
       cbn in NA. rewrite (body_eq _ _ _ _ _ Hn) in NA. rewrite (body_eq _ _ _ _ _ Hn).
-      pose proof (body0_sim _ _ (parse_good f) IH f nd NU cch sn C I) as R.
+      pose proof (body0_sim _ _ (parse_good f) IH f nd cch sn C I) as R.
       assert (Hnm : parse g input orc false (S f) nid psq sn =
                     match body0 (parse g input orc false f) f nd sn with
                     | Ok r s1 => Ok (post nid nd r) s1
